@@ -390,7 +390,7 @@ func TestVerifC10Tasks(t *testing.T) {
 	}
 	depth := 4
 	if ev.Thorough() {
-		depth = 5
+		depth = 6
 	}
 	res.Bounds["depth"] = depth
 	res.Rule = fmt.Sprintf("BFS over histories of {create(spec) for %d specification shapes (legacy a|b|*, db in {default, db1, *} x collection in {a, *}, with user-role flag, with name mapping), create with the n-th store call failing (n=1..6), delete(task i), restart} on one target with at most 3 tasks; each history replayed on a fresh real MetaCDC over the real etcd stores on fakeetcd; after every operation: accepted = persisted = in-memory task set, for every (db, collection) in {default, db1, db2} x {a, b, c} at most one task selects it, each task selects its specification minus its exclusions, data path and DDL path agree, a rejected request leaves bookkeeping and store byte-identical, live bookkeeping (as sets) equals a fresh reload of a copy of the store; states deduplicated on bookkeeping + persisted tasks; non-trivial = states reached through a rejected request or containing exclusions", len(c10Specs))
